@@ -78,6 +78,10 @@ def main():
 
 
 NA = {}
+CLAIMS["C19"] = ("exploration",
+    "differential PBT: scripted underlying readers/writers of all four dynamic types consumed through the proxy and bare by the same generated consumer; caller-visible results, underlying-visible calls, delivered bytes, Close counts, fast-path offer, bar accounting and moving-average samples compared",
+    "the bare twin plays the same script; sample durations are bounded from below only",
+    "property-based testing (rapid): differential oracle against an unproxied twin plus accounting invariants")
 CLAIMS["C20"] = ("exploration",
     "pure-function PBT: every size/percentage/time/rate decorator is printed for generated values, formats and durations and parsed back (round-trip within the printed precision, largest fitting unit), clock readers are bracketed, moving-average estimators are observed through a recording average against the carry rule, completed bars are checked for freeze",
     "tolerance includes 8 ulp of float64; reference carry rule and unit table are written from the property statement; go duration / strconv parsers trusted",
